@@ -1,7 +1,7 @@
 (* C04 -- Unknown error types pass through a process losslessly.
    Statements only; proofs in Proofs/CodecFacts.v. *)
 From Errv Require Import Base.Str Redact.Markers Model.Err Model.Sem Model.Details Model.Marks Model.Codec
-     Proofs.CodecFacts.
+     Proofs.CodecFacts Proofs.EraseDef Proofs.EraseFacts Proofs.HopIdem.
 
 (* a process that knows none of the types re-encodes exactly the message it
    received (at every node; the error-typed test payload is the one proto
@@ -30,6 +30,22 @@ Theorem C04_names_details : forall i msg d cs pfx mt c,
   get_safe_details (OWrap i pfx d mt c) = mksdp (dt_orig d) (dt_fam d) (dt_ext d) (dt_rep d).
 Proof. intros. split; [apply opaque_details_kept | apply opaque_wrapper_details_kept]. Qed.
 Print Assumptions C04_names_details.
+
+(* a process that knows only SOME of the types (any subset closed under the one
+   rename the decoders perform): what it decodes from its own re-encoding is what it
+   had, for every wire message free of foreign-platform errno payloads -- so a
+   chain of such intermediaries does not degrade the error hop after hop *)
+Theorem C04_partial_knowledge_stable : forall p, proc_closed p -> forall x,
+  errno_ok p x = true -> forall n n',
+  erase (fst (decode p (encode (fst (decode p x n))) n')) = erase (fst (decode p x n)).
+Proof. intros p Hp x Hx n n'. now apply hop_idem. Qed.
+Print Assumptions C04_partial_knowledge_stable.
+
+Theorem C04_partial_knowledge_reencode : forall p, proc_closed p -> forall x,
+  errno_ok p x = true -> forall n n',
+  encode (fst (decode p (encode (fst (decode p x n))) n')) = encode (fst (decode p x n)).
+Proof. intros p Hp x Hx n n'. apply same_erase_encode. now apply hop_idem. Qed.
+Print Assumptions C04_partial_knowledge_reencode.
 
 (* the full statement "same Error() text as at the origin" is refuted by the
    faithful model for barriers whose message has unsafe parts (the wire message
